@@ -613,7 +613,12 @@ impl<T: Transport, E: UtpEnvironment> Dispatcher<T, E> {
             remote,
             header: msg.header,
         };
-        while let Some(acceptor) = self.accept_queue.try_next_acceptor() {
+        // SYNs that arrived earlier and are still cached go first: an acceptor may have shown up
+        // after cleanup_accept_queue() ran. Queue behind them, the next cleanup matches in order.
+        while self.accept_queue.syns.is_empty() {
+            let Some(acceptor) = self.accept_queue.try_next_acceptor() else {
+                break;
+            };
             match self.match_syn_with_accept(syn, acceptor) {
                 MatchSynWithAccept::Matched => return Ok(()),
                 MatchSynWithAccept::SynInvalid(sender) => {
